@@ -24,7 +24,9 @@ Proved for every run (any configuration, inputs, timing):
   returns at once; after every step of every run, if the node is bootstrapped nobody is waiting;
 * `C15_api_total`: every API command is answered in the step it arrives in, in every state (the
   model has no failure state: the assertion that killed the node — F15 — is unreachable because the
-  first-round contact list is duplicate-free, `C15_first_round_distinct`).
+  first-round contact list is duplicate-free, `C15_first_round_distinct`, and, for every run,
+  `C15_exchanges_distinct`: the exchanges registered with the socket always have pairwise distinct
+  (address, transaction id) keys, all with the bootstrap action prefix — the asserted condition).
 PARTIAL: the timed clause (resolution within about 11 minutes of a contact becoming responsive) is
 not proved in Lean; it is decided by the [C15] oracle of the node engine on outage scenarios
 (0 s .. 2 h, flapping) against the real node, in lockstep with this model.
@@ -796,5 +798,454 @@ theorem C15_first_round_distinct (c : BConfig) : (c.contacts.1 ++ c.contacts.2).
   subst hxy
   simp only [List.mem_filter, Bool.not_eq_true', List.contains_eq_mem, decide_eq_false_iff_not] at hy
   exact hy.2 hx
+
+end Btdht
+
+namespace Btdht
+
+-- ------------------------------------------------------------------ the socket's uniqueness assertion
+
+/-- the exchanges the worker currently awaits -/
+def BPhase.active : BPhase → List Pending
+  | .initial _ _ _ _ _ a _ _ => a
+  | .buckets _ a => a
+  | _ => []
+
+/-- everything registered in `Socket::transactions` -/
+def DState.registered (s : DState) : List Pending := s.phase.active ++ s.stale
+
+def Pending.key (p : Pending) : Addr × Tid := (p.addr, p.tid)
+
+/-- the invariant behind `assert!(transactions.insert((addr, tid), ..).is_none())`: registered
+exchanges have pairwise distinct (address, transaction id) keys; every registered id was drawn
+before the next one to be drawn; during the first round the shared id is only registered towards
+addresses that have left the to-do lists, which are duplicate-free -/
+structure XInv (s : DState) (_g : Unit) : Prop where
+  nodup : (s.registered.map Pending.key).Nodup
+  drawn : ∀ p ∈ s.registered, p.tid.aid = bootstrapAid ∧ p.tid.seq < s.bseq
+  first : ∀ tid rl nl sl count active responses stopAt, s.phase = .initial tid rl nl sl count active responses stopAt →
+    tid.aid = bootstrapAid ∧ tid.seq < s.bseq ∧ (rl ++ nl).Nodup ∧ s.stale = [] ∧
+    ∀ p ∈ active, p.tid = tid ∧ p.addr ∉ rl ++ nl
+
+theorem xinv_of_regs (s s' : DState) (h : XInv s ()) (hsub : (s'.registered).Sublist s.registered)
+    (hseq : s.bseq ≤ s'.bseq) (hph : ∀ tid rl nl sl count active responses stopAt, s'.phase ≠ .initial tid rl nl sl count active responses stopAt) :
+    XInv s' () where
+  nodup := (hsub.map Pending.key).nodup h.nodup
+  drawn := fun p hp => by
+    obtain ⟨h1, h2⟩ := h.drawn p (hsub.subset hp)
+    exact ⟨h1, Nat.lt_of_lt_of_le h2 hseq⟩
+  first := fun tid rl nl sl count active responses stopAt he => absurd he (hph tid rl nl sl count active responses stopAt)
+
+theorem XInv.hframe {s s' : DState} (h : XInv s ()) (hf : HFrame s s') : XInv s' () where
+  nodup := by unfold DState.registered; rw [hf.phase, hf.stale]; exact h.nodup
+  drawn := fun p hp => by
+    unfold DState.registered at hp; rw [hf.phase, hf.stale] at hp
+    rw [hf.bseq]; exact h.drawn p hp
+  first := fun tid rl nl sl count active responses stopAt he => by
+    rw [hf.phase] at he
+    obtain ⟨h1, h2, h3, h4, h5⟩ := h.first tid rl nl sl count active responses stopAt he
+    exact ⟨h1, hf.bseq ▸ h2, h3, hf.stale ▸ h4, h5⟩
+
+theorem setPub_x (s : DState) (p : BPub) : (s.setPub p).1.phase = s.phase ∧ (s.setPub p).1.stale = s.stale ∧ (s.setPub p).1.bseq = s.bseq ∧
+    (s.setPub p).1.cfg = s.cfg := by
+  unfold DState.setPub; split <;> exact ⟨rfl, rfl, rfl, rfl⟩
+
+theorem contacts_nodup (c : BConfig) : (c.contacts.1 ++ c.contacts.2).Nodup := C15_first_round_distinct c
+
+theorem beginAttempt_x (s : DState) (now : Nat) : XInv (s.beginAttempt now).1 () := by
+  unfold DState.beginAttempt
+  simp only
+  split
+  · have hs := setPub_x { s with stale := [] } .bootstrapped
+    exact ⟨by simp [DState.registered, BPhase.active, hs.2.1], by simp [DState.registered, BPhase.active, hs.2.1], by intro _ _ _ _ _ _ _ _ he; cases he⟩
+  · split
+    · have hs := setPub_x { s with stale := [], h := { s.h with table := { s.h.table with routers := (s.cfg.contacts).1 } } } .idle
+      exact ⟨by simp [DState.registered, BPhase.active, hs.2.1], by simp [DState.registered, BPhase.active, hs.2.1], by intro _ _ _ _ _ _ _ _ he; cases he⟩
+    · have hs := setPub_x { s with stale := [], h := { s.h with table := { s.h.table with routers := (s.cfg.contacts).1 } } } .initialContact
+      refine ⟨by simp [DState.registered, BPhase.active, hs.2.1], by simp [DState.registered, BPhase.active, hs.2.1], ?_⟩
+      intro tid rl nl sl count active responses stopAt he
+      simp only [BPhase.initial.injEq] at he
+      obtain ⟨rfl, rfl, rfl, rfl, rfl, rfl, rfl, rfl⟩ := he
+      refine ⟨rfl, by simp [hs.2.2.1], ?_, hs.2.1, by simp⟩
+      have := contacts_nodup s.cfg
+      simpa using this
+
+theorem filter_ne_not_mem {α} [DecidableEq α] (l : List α) (a : α) : a ∉ l.filter (· ≠ a) := by simp
+
+/-- shrinking the registered exchanges (time-outs, answers) keeps the invariant -/
+theorem xinv_sub (s s' : DState) (h : XInv s ()) (hseq : s.bseq ≤ s'.bseq)
+    (hact : s'.phase.active.Sublist s.phase.active) (hst : s'.stale.Sublist s.stale)
+    (hfirst : ∀ tid rl nl sl c a r st, s'.phase = .initial tid rl nl sl c a r st →
+      ∃ sl0 c0 a0 r0, s.phase = .initial tid rl nl sl0 c0 a0 r0 st) : XInv s' () := by
+  have hsub : s'.registered.Sublist s.registered := List.Sublist.append hact hst
+  refine ⟨(hsub.map Pending.key).nodup h.nodup, fun p hp => ?_, ?_⟩
+  · obtain ⟨h1, h2⟩ := h.drawn p (hsub.subset hp)
+    exact ⟨h1, Nat.lt_of_lt_of_le h2 hseq⟩
+  · intro tid rl nl sl c a r st he
+    obtain ⟨sl0, c0, a0, r0, he0⟩ := hfirst tid rl nl sl c a r st he
+    obtain ⟨h1, h2, h3, h4, h5⟩ := h.first tid rl nl sl0 c0 a0 r0 st he0
+    refine ⟨h1, Nat.lt_of_lt_of_le h2 hseq, h3, ?_, ?_⟩
+    · rw [h4] at hst; exact List.sublist_nil.mp hst
+    · intro p hp
+      have : s'.phase.active = a := by rw [he]; rfl
+      have h0 : s.phase.active = a0 := by rw [he0]; rfl
+      rw [this, h0] at hact
+      exact h5 p (hact.subset hp)
+
+theorem finishInitial_x (s : DState) (responses : Nat) (remaining : List Pending) (now : Nat) (h : XInv s ())
+    (hrem : remaining.Sublist s.phase.active) (hst : s.stale = []) : XInv (s.finishInitial responses remaining now).1 () := by
+  unfold DState.finishInitial
+  split
+  · have hs := setPub_x s .idle
+    refine xinv_sub s _ h (by simp [hs.2.2.1]) (by simp [BPhase.active]) (by simp [hs.2.1]) ?_
+    intro _ _ _ _ _ _ _ _ he; cases he
+  · have hs := setPub_x s .bootstrapping
+    -- the exchanges that were still awaited stay registered, un-awaited
+    have hreg : ∀ p ∈ remaining, p ∈ s.registered := fun p hp => List.mem_append_left _ (hrem.subset hp)
+    refine ⟨?_, ?_, by intro _ _ _ _ _ _ _ _ he; cases he⟩
+    · simp only [DState.registered, BPhase.active, List.nil_append]
+      have : (remaining.map Pending.key).Sublist (s.registered.map Pending.key) := by
+        unfold DState.registered; rw [hst, List.append_nil]; exact hrem.map _
+      exact this.nodup h.nodup
+    · intro p hp
+      simp only [DState.registered, BPhase.active, List.nil_append] at hp
+      have := h.drawn p (hreg p hp)
+      exact ⟨this.1, by simp only [hs.2.2.1]; exact this.2⟩
+
+theorem pickFirstRound_spec (o rl nl : List Addr) (dst : Addr) (o' rl' nl' : List Addr)
+    (h : pickFirstRound o rl nl = some (dst, o', rl', nl')) :
+    dst ∈ rl ++ nl ∧ rl' = rl.filter (· ≠ dst) ∧ nl' = nl.filter (· ≠ dst) := by
+  unfold pickFirstRound at h
+  simp only at h
+  split at h
+  · simp at h
+  · rename_i d rest heq
+    simp only [Option.some.injEq, Prod.mk.injEq] at h
+    obtain ⟨h1, _, h3, h4⟩ := h
+    refine ⟨?_, ?_, ?_⟩
+    · rw [← h1]
+      cases o with
+      | nil => simp only; rw [heq]; simp
+      | cons x xs =>
+        simp only
+        split
+        · rename_i hc; simpa using hc
+        · rw [heq]; simp
+    · rw [← h3, ← h1]
+    · rw [← h4, ← h1]
+
+theorem firstRoundSend_x (s : DState) (tid : Tid) (rl nl : List Addr) (sl : Option Nat) (count : Nat) (active : List Pending)
+    (responses stopAt now : Nat) (r : DState × List DEv) (h : XInv s ())
+    (hph : s.phase = .initial tid rl nl sl count active responses stopAt)
+    (hr : s.firstRoundSend tid rl nl count active responses stopAt now = some r) : XInv r.1 () := by
+  obtain ⟨h1, h2, h3, h4, h5⟩ := h.first tid rl nl sl count active responses stopAt hph
+  unfold DState.firstRoundSend at hr
+  split at hr
+  · simp at hr
+  · rename_i dst o' rl' nl' hpick
+    obtain ⟨hmem, hrl, hnl⟩ := pickFirstRound_spec _ _ _ _ _ _ _ hpick
+    simp only [Option.some.injEq] at hr; subst hr
+    have hreg : s.registered = active := by unfold DState.registered; rw [hph, h4]; simp [BPhase.active]
+    have hnd := h.nodup; rw [hreg] at hnd
+    have hfil : (rl' ++ nl') = (rl ++ nl).filter (· ≠ dst) := by rw [hrl, hnl, List.filter_append]
+    have hnotin : ∀ p ∈ active, p.addr ∉ rl' ++ nl' := by
+      intro p hp hc
+      rw [hfil] at hc
+      exact (h5 p hp).2 (List.mem_filter.mp hc).1
+    have hfirst' : ∀ (cnt : Nat) (act : List Pending), (∀ p ∈ act, p.tid = tid ∧ p.addr ∉ rl' ++ nl') →
+        ∀ tid2 rl2 nl2 sl2 c2 a2 r2 st2,
+          BPhase.initial tid rl' nl' none cnt act responses stopAt = .initial tid2 rl2 nl2 sl2 c2 a2 r2 st2 →
+          tid2.aid = bootstrapAid ∧ tid2.seq < s.bseq ∧ (rl2 ++ nl2).Nodup ∧ s.stale = [] ∧ ∀ p ∈ a2, p.tid = tid2 ∧ p.addr ∉ rl2 ++ nl2 := by
+      intro cnt act hact tid2 rl2 nl2 sl2 c2 a2 r2 st2 he
+      simp only [BPhase.initial.injEq] at he
+      obtain ⟨rfl, rfl, rfl, _, _, rfl, _, _⟩ := he
+      exact ⟨h1, h2, by rw [hfil]; exact h3.filter _, h4, hact⟩
+    by_cases hok : (!s.h.failAddrs.contains dst) = true
+    · simp only [hok, if_true]
+      have hact' : ∀ p ∈ active ++ [(⟨dst, tid, now + Constants.INITIAL_TIMEOUT_ns⟩ : Pending)], p.tid = tid ∧ p.addr ∉ rl' ++ nl' := by
+        intro p hp
+        simp only [List.mem_append, List.mem_singleton] at hp
+        rcases hp with hp | rfl
+        · exact ⟨(h5 p hp).1, hnotin p hp⟩
+        · exact ⟨rfl, by rw [hfil]; simp⟩
+      refine ⟨?_, ?_, fun a b c d e f g hh he => hfirst' _ _ hact' a b c d e f g hh he⟩
+      · simp only [DState.registered, BPhase.active, h4, List.append_nil, List.map_append, List.map_cons, List.map_nil]
+        rw [List.nodup_append]
+        refine ⟨hnd, by simp, ?_⟩
+        intro k hk k2 hk2
+        simp only [List.mem_singleton] at hk2
+        subst hk2
+        obtain ⟨p, hp, rfl⟩ := List.mem_map.mp hk
+        intro heq
+        simp only [Pending.key, Prod.mk.injEq] at heq
+        exact (h5 p hp).2 (heq.1 ▸ hmem)
+      · intro p hp
+        simp only [DState.registered, BPhase.active, h4, List.append_nil, List.mem_append, List.mem_singleton] at hp
+        rcases hp with hp | rfl
+        · exact h.drawn p (hreg ▸ hp)
+        · exact ⟨h1, h2⟩
+    · simp only [hok, if_false]
+      refine ⟨?_, ?_, fun a b c d e f g hh he => hfirst' _ _ (fun p hp => ⟨(h5 p hp).1, hnotin p hp⟩) a b c d e f g hh he⟩
+      · simp only [DState.registered, BPhase.active, h4, List.append_nil]; exact hnd
+      · intro p hp
+        simp only [DState.registered, BPhase.active, h4, List.append_nil] at hp
+        exact h.drawn p (hreg ▸ hp)
+
+/-- the fold of a bucket round: every new exchange gets a fresh id -/
+theorem bucketRound_x (s : DState) (k now : Nat) (h : XInv s ()) (hph : s.phase.active = [])
+    (hni : ∀ tid rl nl sl c a r st, s.phase ≠ .initial tid rl nl sl c a r st) : XInv (s.bucketRound k now).1 () := by
+  unfold DState.bucketRound
+  simp only
+  have hreg : s.registered = s.stale := by unfold DState.registered; rw [hph]; rfl
+  have hf := foldl_pred (fun (acc : DState × List Pending × List DEv) =>
+      acc.1.stale = s.stale ∧ acc.1.phase = s.phase ∧ s.bseq ≤ acc.1.bseq ∧
+      ((acc.2.1 ++ s.stale).map Pending.key).Nodup ∧ ∀ p ∈ acc.2.1 ++ s.stale, p.tid.aid = bootstrapAid ∧ p.tid.seq < acc.1.bseq)
+    (bucketSend (flipBit s.h.selfId k) now)
+    (fun acc hd hacc => by
+      obtain ⟨sa, act, evs⟩ := acc
+      obtain ⟨a1, a2, a3, a4, a5⟩ := hacc
+      unfold bucketSend
+      simp only at a1 a2 a3 a4 a5 ⊢
+      split
+      · refine ⟨a1, a2, Nat.le_succ_of_le a3, ?_, ?_⟩
+        · rw [List.append_assoc, List.map_append, List.nodup_append]
+          rw [List.map_append, List.nodup_append] at a4
+          refine ⟨a4.1, ?_, ?_⟩
+          · simp only [List.singleton_append, List.map_cons, List.nodup_cons]
+            refine ⟨?_, a4.2.1⟩
+            intro hk
+            obtain ⟨p, hp, hkey⟩ := List.mem_map.mp hk
+            have := (a5 p (List.mem_append_right _ hp)).2
+            simp only [Pending.key, Prod.mk.injEq] at hkey
+            rw [hkey.2] at this
+            exact Nat.lt_irrefl _ this
+          · intro x hx y hy
+            simp only [List.singleton_append, List.map_cons, List.mem_cons] at hy
+            rcases hy with rfl | hy
+            · obtain ⟨p, hp, rfl⟩ := List.mem_map.mp hx
+              intro hkey
+              have := (a5 p (List.mem_append_left _ hp)).2
+              simp only [Pending.key, Prod.mk.injEq] at hkey
+              rw [hkey.2] at this
+              exact Nat.lt_irrefl _ this
+            · exact a4.2.2 x hx y hy
+        · intro p hp
+          simp only [List.append_assoc, List.mem_append, List.singleton_append, List.mem_cons] at hp
+          rcases hp with hp | rfl | hp
+          · obtain ⟨b1, b2⟩ := a5 p (List.mem_append_left _ hp); exact ⟨b1, Nat.lt_succ_of_lt b2⟩
+          · exact ⟨rfl, Nat.lt_succ_self _⟩
+          · obtain ⟨b1, b2⟩ := a5 p (List.mem_append_right _ hp); exact ⟨b1, Nat.lt_succ_of_lt b2⟩
+      · exact ⟨a1, a2, Nat.le_succ_of_le a3, a4, fun p hp => by obtain ⟨b1, b2⟩ := a5 p hp; exact ⟨b1, Nat.lt_succ_of_lt b2⟩⟩)
+    (s.bucketPicks k now) (s, [], [])
+    ⟨rfl, rfl, Nat.le_refl _, by simpa [hreg] using h.nodup, by intro p hp; simp only [List.nil_append] at hp; exact h.drawn p (hreg ▸ hp)⟩
+  generalize (s.bucketPicks k now).foldl (bucketSend (flipBit s.h.selfId k) now) (s, [], []) = acc at hf
+  obtain ⟨sa, act, evs⟩ := acc
+  obtain ⟨a1, a2, a3, a4, a5⟩ := hf
+  simp only at a1 a2 a3 a4 a5 ⊢
+  split
+  · rename_i hemp
+    have : act = [] := by simpa using hemp
+    subst this
+    exact ⟨by simpa [DState.registered, BPhase.active, a1] using a4, by simpa [DState.registered, BPhase.active, a1] using a5,
+      by intro _ _ _ _ _ _ _ _ he; cases he⟩
+  · exact ⟨by simpa [DState.registered, BPhase.active, a1] using a4, by simpa [DState.registered, BPhase.active, a1] using a5,
+      by intro _ _ _ _ _ _ _ _ he; cases he⟩
+
+theorem sweepDone_x (s : DState) (now : Nat) (h : XInv s ()) (hph : s.phase.active = [])
+    (hni : ∀ tid rl nl sl c a r st, s.phase ≠ .initial tid rl nl sl c a r st) : XInv (s.sweepDone now).1 () := by
+  unfold DState.sweepDone
+  simp only
+  split
+  · have hs := setPub_x s .idle
+    exact xinv_sub s _ h (by simp [hs.2.2.1]) (by simp [BPhase.active]) (by simp [hs.2.1]) (by intro _ _ _ _ _ _ _ _ he; cases he)
+  · have hs := setPub_x s .bootstrapped
+    exact xinv_sub s _ h (by simp [hs.2.2.1]) (by simp [BPhase.active]) (by simp [hs.2.1]) (by intro _ _ _ _ _ _ _ _ he; cases he)
+
+theorem bStep_x (s : DState) (now : Nat) (r : DState × List DEv) (h : XInv s ()) (hb : s.bStep now = some r) : XInv r.1 () := by
+  unfold DState.bStep at hb
+  cases hphase : s.phase with
+  | awaitStart => simp [hphase] at hb
+  | forever => simp [hphase] at hb
+  | sleeping w =>
+    simp only [hphase] at hb
+    split at hb
+    · simp only [Option.some.injEq] at hb; subst hb; exact beginAttempt_x s now
+    · simp at hb
+  | bootstrapped c =>
+    simp only [hphase] at hb
+    split at hb
+    · simp only [Option.some.injEq] at hb; subst hb
+      unfold DState.periodicCheck
+      split
+      · exact beginAttempt_x s now
+      · exact xinv_sub s _ h (Nat.le_refl _) (by simp [BPhase.active]) (List.Sublist.refl _) (by intro _ _ _ _ _ _ _ _ he; cases he)
+    · simp at hb
+  | initial tid rl nl sl count active responses stopAt =>
+    simp only [hphase] at hb
+    have hst := (h.first tid rl nl sl count active responses stopAt hphase).2.2.2.1
+    split at hb
+    · simp only [Option.some.injEq] at hb; subst hb
+      refine xinv_sub s _ h (Nat.le_refl _) (by simp only [BPhase.active, hphase]; exact List.filter_sublist) (List.Sublist.refl _) ?_
+      intro t2 r2 n2 s2 c2 a2 rr st he
+      simp only [BPhase.initial.injEq] at he
+      obtain ⟨rfl, rfl, rfl, _, _, _, _, rfl⟩ := he
+      exact ⟨_, _, _, _, hphase⟩
+    · split at hb
+      · split at hb
+        · simp only [Option.some.injEq] at hb; subst hb
+          exact finishInitial_x s responses [] now h (List.nil_sublist _) hst
+        · simp at hb
+      · split at hb
+        · split at hb
+          · exact firstRoundSend_x s tid rl nl _ count active responses stopAt now r h hphase hb
+          · simp at hb
+        · split at hb
+          · simp only [Option.some.injEq] at hb; subst hb
+            refine xinv_sub s _ h (Nat.le_refl _) (by simp [BPhase.active, hphase]) (List.Sublist.refl _) ?_
+            intro t2 r2 n2 s2 c2 a2 rr st he
+            simp only [BPhase.initial.injEq] at he
+            obtain ⟨rfl, rfl, rfl, _, _, _, _, rfl⟩ := he
+            exact ⟨_, _, _, _, hphase⟩
+          · exact firstRoundSend_x s tid rl nl _ count active responses stopAt now r h hphase hb
+  | bucketStart k =>
+    simp only [hphase] at hb
+    have hact : s.phase.active = [] := by rw [hphase]; rfl
+    have hni : ∀ tid rl nl sl c a r st, s.phase ≠ .initial tid rl nl sl c a r st := by intro _ _ _ _ _ _ _ _ he; rw [hphase] at he; cases he
+    split at hb
+    · simp only [Option.some.injEq] at hb; subst hb; exact bucketRound_x s k now h hact hni
+    · simp only [Option.some.injEq] at hb; subst hb; exact sweepDone_x s now h hact hni
+  | buckets k active =>
+    simp only [hphase] at hb
+    split at hb
+    · simp only [Option.some.injEq] at hb; subst hb
+      exact xinv_sub s _ h (Nat.le_refl _) (by simp [BPhase.active]) (List.Sublist.refl _) (by intro _ _ _ _ _ _ _ _ he; cases he)
+    · split at hb
+      · simp only [Option.some.injEq] at hb; subst hb
+        exact xinv_sub s _ h (Nat.le_refl _) (by simp only [BPhase.active, hphase]; exact List.filter_sublist) (List.Sublist.refl _)
+          (by intro _ _ _ _ _ _ _ _ he; cases he)
+      · simp at hb
+
+theorem removePending_sublist (l : List Pending) (p : Pending) : (removePending l p).Sublist l := List.filter_sublist
+
+theorem workerMessage_x (s : DState) (p : Pending) (body : Body) (src : Addr) (now : Nat) (h : XInv s ()) :
+    XInv (s.workerMessage p body src now).1 () := by
+  unfold DState.workerMessage
+  cases hphase : s.phase with
+  | initial tid rl nl sl count active responses stopAt =>
+    simp only
+    have hst := (h.first tid rl nl sl count active responses stopAt hphase).2.2.2.1
+    have keep : ∀ (s1 : DState) (resp' : Nat), s1.bseq = s.bseq → s1.stale = s.stale →
+        s1.phase = .initial tid rl nl sl count (removePending active p) resp' stopAt → XInv s1 () := by
+      intro s1 resp' hb hs hp
+      refine xinv_sub s s1 h (by rw [hb]; exact Nat.le_refl _) (by rw [hp, hphase]; exact removePending_sublist _ _) (by rw [hs]; exact List.Sublist.refl _) ?_
+      intro t2 r2 n2 s2 c2 a2 rr st he
+      rw [hp] at he
+      simp only [BPhase.initial.injEq] at he
+      obtain ⟨rfl, rfl, rfl, _, _, _, _, rfl⟩ := he
+      exact ⟨_, _, _, _, hphase⟩
+    split
+    · cases body with
+      | resp r =>
+        simp only
+        split
+        · -- the round is cut: what is still awaited stays registered
+          have hbase : XInv { s with h := { s.h with table := s.h.table.addNodes (Node.asGood ⟨r.id, src⟩ now) (s.h.namedBy r) now } } () :=
+            ⟨h.nodup, h.drawn, h.first⟩
+          exact finishInitial_x _ _ _ now hbase (by simp only [hphase, BPhase.active]; exact removePending_sublist _ _) hst
+        · exact keep _ _ rfl rfl rfl
+      | req q => simp only; exact keep _ _ rfl rfl rfl
+      | err c m => simp only; exact keep _ _ rfl rfl rfl
+    · refine xinv_sub s _ h (Nat.le_refl _) (by simp [hphase]) (removePending_sublist _ _) ?_
+      intro t2 r2 n2 s2 c2 a2 rr st he
+      simp only [BPhase.initial.injEq] at he
+      obtain ⟨rfl, rfl, rfl, _, _, _, _, rfl⟩ := he
+      exact ⟨_, _, _, _, hphase⟩
+  | buckets k active =>
+    simp only
+    split
+    · cases body with
+      | resp r =>
+        simp only
+        exact xinv_sub s _ h (Nat.le_refl _) (by simp only [hphase, BPhase.active]; exact removePending_sublist _ _) (List.Sublist.refl _)
+          (by intro _ _ _ _ _ _ _ _ he; cases he)
+      | req q =>
+        simp only
+        exact xinv_sub s _ h (Nat.le_refl _) (by simp only [hphase, BPhase.active]; exact removePending_sublist _ _) (List.Sublist.refl _)
+          (by intro _ _ _ _ _ _ _ _ he; cases he)
+      | err c m =>
+        simp only
+        exact xinv_sub s _ h (Nat.le_refl _) (by simp only [hphase, BPhase.active]; exact removePending_sublist _ _) (List.Sublist.refl _)
+          (by intro _ _ _ _ _ _ _ _ he; cases he)
+    · exact xinv_sub s _ h (Nat.le_refl _) (by simp [hphase]) (removePending_sublist _ _)
+        (by intro _ _ _ _ _ _ _ _ he; simp [hphase] at he)
+  | awaitStart =>
+    simp only
+    exact xinv_sub s _ h (Nat.le_refl _) (by simp [hphase]) (removePending_sublist _ _) (by intro _ _ _ _ _ _ _ _ he; simp [hphase] at he)
+  | forever =>
+    simp only
+    exact xinv_sub s _ h (Nat.le_refl _) (by simp [hphase]) (removePending_sublist _ _) (by intro _ _ _ _ _ _ _ _ he; simp [hphase] at he)
+  | sleeping w =>
+    simp only
+    exact xinv_sub s _ h (Nat.le_refl _) (by simp [hphase]) (removePending_sublist _ _) (by intro _ _ _ _ _ _ _ _ he; simp [hphase] at he)
+  | bucketStart k =>
+    simp only
+    exact xinv_sub s _ h (Nat.le_refl _) (by simp [hphase]) (removePending_sublist _ _) (by intro _ _ _ _ _ _ _ _ he; simp [hphase] at he)
+  | bootstrapped c =>
+    simp only
+    exact xinv_sub s _ h (Nat.le_refl _) (by simp [hphase]) (removePending_sublist _ _) (by intro _ _ _ _ _ _ _ _ he; simp [hphase] at he)
+
+theorem c15x_obligations : Obligations XInv trivScan where
+  clock := fun s g d h => ⟨h.nodup, h.drawn, h.first⟩
+  oracle := fun s g fr h => ⟨h.nodup, h.drawn, h.first⟩
+  timer := fun s g now r h hf => ⟨(), trivScan_ok _ _, h.hframe (fireOne_hframe s now r hf).1⟩
+  observe := fun s g now h => by
+    unfold DState.hObserve
+    split
+    · exact ok_nil s () now h
+    · simp only
+      split
+      · exact ⟨(), trivScan_ok _ _, XInv.hframe (s := { s with seenVersion := s.pubVersion }) ⟨h.nodup, h.drawn, h.first⟩
+          (bootstrapSuccess_hframe { s with seenVersion := s.pubVersion } now).1⟩
+      · exact ok_nil _ () now ⟨h.nodup, h.drawn, h.first⟩
+  command := fun s g now c h => by
+    cases c with
+    | startBootstrap =>
+      simp only [DState.command]
+      split
+      · exact ⟨(), trivScan_ok _ _, beginAttempt_x s now⟩
+      · exact ⟨(), rfl, h⟩
+    | checkBootstrap =>
+      simp only [DState.command]
+      split <;> exact ⟨(), rfl, ⟨h.nodup, h.drawn, h.first⟩⟩
+    | startLookup ih ann =>
+      simp only [DState.command]
+      exact ⟨(), trivScan_ok _ _, h.hframe (startLookup_hframe s ih ann now).1⟩
+    | getLocalAddr => exact ⟨(), rfl, h⟩
+    | getState => exact ⟨(), rfl, h⟩
+    | loadContacts => exact ⟨(), rfl, h⟩
+  garbage := fun s g now src h => ⟨(), rfl, h⟩
+  datagram := fun s g now tid body src h => by
+    unfold DState.datagram
+    simp only
+    split
+    · -- the worker's handle_message only removes the exchange (and may finish the first round)
+      rename_i p _
+      refine ⟨(), trivScan_ok _ _, ?_⟩
+      exact workerMessage_x s p body src now h
+    · exact ⟨(), trivScan_ok _ _, h.hframe ⟨rfl, rfl, rfl, rfl, rfl, rfl, rfl, rfl⟩⟩
+  worker := fun s g now r h hb => ⟨(), trivScan_ok _ _, bStep_x s now r h hb⟩
+
+/-- **C15 (the uniqueness assertion cannot fire)**: in every state of every run the exchanges
+registered with the socket have pairwise distinct (address, transaction id) keys — the condition
+asserted by `Socket::responded`, whose violation killed the node on the pinned tree (F15) — and all
+carry the bootstrap action prefix (C19: no other activity's id is ever registered there). -/
+theorem C15_exchanges_distinct (selfId : Bytes) (addr : Addr) (ro : Bool) (port : Option Nat) (fa : List Addr)
+    (cfg : BConfig) (t0 : Nat) (ins : List DInput) :
+    let s := ((DState.new selfId addr ro port fa cfg t0).run ins).1
+    (s.registered.map Pending.key).Nodup ∧ ∀ p ∈ s.registered, p.tid.aid = bootstrapAid := by
+  obtain ⟨g, _, hi⟩ := run_ok c15x_obligations (DState.new selfId addr ro port fa cfg t0) () ins
+    ⟨by simp [DState.new, DState.registered, BPhase.active], by simp [DState.new, DState.registered, BPhase.active],
+     by intro _ _ _ _ _ _ _ _ he; simp [DState.new] at he⟩
+  exact ⟨hi.nodup, fun p hp => (hi.drawn p hp).1⟩
 
 end Btdht
